@@ -68,6 +68,7 @@ func encodeCSV(ctx context.Context, fp io.Writer, view *View, options option.Exp
 	}
 
 	for i := range view.RecordSet {
+		verifPointN("encode.row", i)
 		if i&15 == 0 && ctx.Err() != nil {
 			err = ConvertContextError(ctx.Err())
 			break
